@@ -5,7 +5,7 @@ from ..gen import histories as H, sqlite_factory as F
 from . import dbcommon as C
 
 ID = "C06"
-LEAN_MODULES = ["SqliteDissect.Properties.C06", "SqliteDissect.Properties.C16"]
+LEAN_MODULES = ["SqliteDissect.Properties.C06", "SqliteDissect.Properties.C16", "SqliteDissect.Properties.C01Tree"]
 RULE = ("factory databases (grid as C01, churn leaving freeblocks / fragments / freelist pages / pointer-map pages) "
         "and WAL histories; per version the page census (version.pages) and every b-tree page layout are compared "
         "with the Lean model and with SQLite's dbstat, page_count, freelist_count and integrity_check. "
@@ -57,7 +57,8 @@ def check_census(ctx, version, path, case):
             if len(p.cells) != stat[n][3]:
                 ctx.oracle_fail("ncell", "cell count differs from dbstat", dict(case, page=n), len(p.cells), stat[n][3])
             # tiling: regions in address order are contiguous from the content offset to the page end
-            regs = sorted([(c.start_offset, c.end_offset) for c in p.cells] +
+            # (a cell is allocated at least four bytes: SQLite's cellSizePtr; a 3-byte index cell is padded)
+            regs = sorted([(c.start_offset, max(c.end_offset, c.start_offset + 4)) for c in p.cells] +
                           [(f.start_offset, f.end_offset) for f in p.freeblocks] +
                           [(f.start_offset, f.end_offset) for f in p.fragments])
             pos = p.unallocated_space_end_offset
@@ -138,6 +139,15 @@ def search(ctx, broken):
 
 
 def replay(ctx, data):
+    files = C.replay_files(data)
+    if files and not files[0].endswith("-wal"):
+        case = {"replay": True, "corpus_file": (data.get("failure") or {}).get("case", {}).get("corpus_file")}
+        impl, db, exc = C.compare_db_dump(ctx, files[0], "db.dump")
+        if db is None:
+            ctx.oracle_fail("rejected", f"a database written by SQLite is rejected: {impl}", case, impl, "accepted")
+        else:
+            check_census(ctx, db, files[0], case)
+        return
     run(ctx, 10, 10)
 
 
